@@ -2233,6 +2233,13 @@ func (c *linkerContext) generateCodeForLazyExport(sourceIndex uint32) {
 				(!file.IsEntryPoint() || js_ast.IsIdentifierUTF16(str.Value) ||
 					!c.options.UnsupportedJSFeatures.Has(compat.ArbitraryModuleNamespaceNames)) {
 				if name := helpers.UTF16ToString(str.Value); name != "default" {
+					// Don't generate a symbol for a name that can't be printed as an identifier
+					// in the configured target environment. The value is still available
+					// via the default export.
+					if c.options.ASCIIOnly && c.options.UnsupportedJSFeatures.Has(compat.UnicodeEscapes) && helpers.ContainsNonBMPCodePointUTF16(str.Value) {
+						continue
+					}
+
 					ref, partIndex := generateExport(property.Key.Loc, name, name)
 
 					// This initializes the generated variable with a copy of the property
